@@ -348,14 +348,27 @@ def r3(ctx):
     """)
     ctx.check(ok, "C16.R3", "one row per constraint in order; b receives −constant (so that A·x − b = lhs − rhs)", gm.where, ctx.construct(gm, text="row emit"),
               f"row emission: {why}")
-    ok, why = contains(P, gm, """
+    from ..expect import contains_any
+    ok, why = contains_any(P, gm, ["""
         def get_matrix(self, formula):
             col_vectors = dict(zip(self.variable_names, numpy.eye(len(self.variable_names))))
-            ...
             for constraint in constraints:
-                ...
-            ...
-    """)
+                vector = numpy.zeros(len(self.variable_names))
+    """, """
+        def get_matrix(self, formula):
+            identity = numpy.eye(len(self.variable_names))
+            col_vectors = {}
+            for index, variable_name in enumerate(self.variable_names):
+                col_vectors[variable_name] = identity[index]
+            for constraint in constraints:
+                vector = numpy.zeros(len(self.variable_names))
+    """, """
+        def get_matrix(self, formula):
+            identity = numpy.eye(len(self.variable_names))
+            col_vectors = {variable_name: identity[index] for index, variable_name in enumerate(self.variable_names)}
+            for constraint in constraints:
+                vector = numpy.zeros(len(self.variable_names))
+    """])
     ctx.check(ok, "C16.R3", "column i of A belongs to variable_names[i]", gm.where, ctx.construct(gm, text="col_vectors"), f"unit vectors must be zipped with variable_names in order: {why}")
     ok, why = contains(P, gm, """
         def get_matrix(self, formula):
